@@ -29,9 +29,91 @@ K_UDP_VALIDATOR = dict(
     ],
 )
 
+K_COMMON_ADDR = dict(
+    unit='common_addr', package='aquatic_common',
+    inject=[('crates/common/src/lib.rs', 'common_harness.rs')],
+    attrs=[
+        dict(file='crates/common/src/lib.rs', before=r'^    pub fn new\(addr: SocketAddr\) -> Self \{',
+             lines=['#[cfg_attr(kani, kani::ensures(|r: &CanonicalSocketAddr| r.0 == verif_kani::canon_spec(addr)))]']),
+        dict(file='crates/common/src/lib.rs', before=r'^    pub fn new_with_now\(now: SecondsSinceServerStart, offset_seconds: u32\) -> Self \{',
+             lines=['#[cfg_attr(kani, kani::requires(now.0 as u64 + offset_seconds as u64 <= u32::MAX as u64))]',
+                    '#[cfg_attr(kani, kani::ensures(|r: &ValidUntil| (r.0).0 as u64 == now.0 as u64 + offset_seconds as u64))]']),
+    ],
+    harnesses=[
+        dict(name='verif_kani::contract_canonical_new', complete=True, timeout=300, tags=['C03.canon.contract_new'],
+             functions=['CanonicalSocketAddr::new (kani::ensures)']),
+        dict(name='verif_kani::canonical_views', complete=True, timeout=300,
+             tags=['C03.canon.new', 'C03.canon.is_ipv4', 'C03.canon.get_ipv4', 'C03.canon.mapped', 'C03.canon.roundtrip', 'C03.canon.dual_stack_same_peer'],
+             functions=['CanonicalSocketAddr::new', 'CanonicalSocketAddr::get_ipv6_mapped', 'CanonicalSocketAddr::get_ipv4', 'CanonicalSocketAddr::is_ipv4']),
+        dict(name='verif_kani::contract_new_with_now', complete=True, timeout=300, tags=['C10.valid_until.contract_new_with_now'],
+             functions=['ValidUntil::new_with_now (kani::requires/ensures)']),
+        dict(name='verif_kani::valid_until_exact', complete=True, timeout=300, tags=['C10.valid_until.exact'],
+             functions=['ValidUntil::new_with_now', 'ValidUntil::valid']),
+    ],
+)
+
+_UP = 'crates/udp_protocol/src/'
+K_UDP_PROTO = dict(
+    unit='udp_proto', package='aquatic_udp_protocol',
+    inject=[(_UP + 'request.rs', 'request_harness.rs')],
+    harnesses=[
+        dict(name='request::verif_kani::parse_connect_announce', complete=True, timeout=900,
+             tags=['C13.req.short', 'C13.req.connect.fields', 'C13.req.connect.accept', 'C13.req.connect.reject', 'C13.req.announce.reject',
+                   'C13.req.announce.port0', 'C13.req.announce.event', 'C13.req.announce.fields', 'C13.req.announce.accept', 'C13.req.unknown_action',
+                   'C12.udp_proto.request_parse_128'],
+             functions=['Request::parse_bytes (connect, announce, unknown action; all datagrams <= 128 bytes)']),
+        dict(name='request::verif_kani::parse_scrape_small', complete=False, bound='<= 4 hashes + ragged tails', timeout=900,
+             tags=['C13.req.scrape.short', 'C13.req.scrape.bad_list', 'C13.req.scrape.truncation', 'C13.req.scrape.fields', 'C13.req.scrape.order',
+                   'C13.req.scrape.accept', 'C06.parse.scrape_truncation', 'C06.parse.scrape_order'],
+             functions=['Request::parse_bytes (scrape)']),
+        dict(name='request::verif_kani::parse_scrape_any_len', complete=True, timeout=1500, tier='thorough',
+             tags=['C13.req.scrape.truncation_any_len', 'C13.req.scrape.order_any_len', 'C13.req.scrape.accept_any_len',
+                   'C06.parse.scrape_truncation_any_len', 'C06.parse.scrape_order_any_len'],
+             functions=['Request::parse_bytes (scrape, every well-formed datagram <= 8192 bytes)']),
+        dict(name='request::verif_kani::write_connect_announce', complete=True, timeout=900,
+             tags=['C13.req.connect.write', 'C13.req.connect.roundtrip', 'C13.req.announce.write', 'C13.req.announce.roundtrip'],
+             functions=['ConnectRequest::write_bytes', 'AnnounceRequest::write_bytes']),
+        dict(name='request::verif_kani::write_scrape', complete=False, bound='<= 2 hashes', timeout=900,
+             tags=['C13.req.scrape.write', 'C13.req.scrape.roundtrip'], functions=['ScrapeRequest::write_bytes']),
+    ],
+)
+
+_SW = 'udp_swarm: '
+K_UDP_SWARM = dict(
+    unit='udp_swarm', package='aquatic_udp',
+    inject=[('crates/udp/src/swarm.rs', 'swarm_harness.rs')],
+    replace=[('crates/common/Cargo.toml', 'indexmap = "2"', 'indexmap = { package = "indexmap_model", path = "/verif/models/indexmap_model" }')],
+    harnesses=[
+        dict(name='swarm::verif_kani::small_insert_etc_v4', complete=True, timeout=900,
+             tags=['C01.udp.small.is_full', 'C01.udp.small.nsl', 'C01.udp.small.insert', 'C02.udp.small.extract.len', 'C02.udp.small.extract.keys'],
+             functions=['SmallPeerMap::{is_full,num_seeders_leechers,insert,extract_response_peers}']),
+        dict(name='swarm::verif_kani::small_remove_v4', complete=True, timeout=1500, tier='thorough',
+             tags=['C01.udp.small.remove.absent', 'C01.udp.small.remove.present'], functions=['SmallPeerMap::remove']),
+        dict(name='swarm::verif_kani::small_remove_v6', complete=True, timeout=2400, tier='thorough',
+             tags=['C01.udp.small.remove.absent', 'C01.udp.small.remove.present'], functions=['SmallPeerMap::remove (IPv6)']),
+        dict(name='swarm::verif_kani::small_insert_etc_v6', complete=True, timeout=1500, tier='thorough',
+             tags=['C01.udp.small.is_full', 'C01.udp.small.nsl', 'C01.udp.small.insert', 'C02.udp.small.extract.len', 'C02.udp.small.extract.keys'],
+             functions=['SmallPeerMap::* (IPv6)']),
+        dict(name='swarm::verif_kani::small_clean_v4', complete=True, timeout=900,
+             tags=['C10.udp.small.clean.keeps_unexpired', 'C10.udp.small.clean.removes_expired', 'C01.udp.small.clean.counts', 'C20.udp.small.clean.counts', 'C20.udp.small.clean.no_msgs_when_off'],
+             functions=['SmallPeerMap::clean_and_get_num_peers']),
+        dict(name='swarm::verif_kani::small_to_large_v4', complete=True, timeout=900,
+             tags=['C01.udp.small.to_large.same_entries', 'C01.udp.small.to_large.num_seeders'], functions=['SmallPeerMap::to_large']),
+        dict(name='swarm::verif_kani::large_clean_v4_3', complete=False, bound='heap map <= 3 entries', timeout=900,
+             tags=['C10.udp.large.clean.keeps_unexpired', 'C10.udp.large.clean.removes_expired', 'C01.udp.large.clean.wf', 'C01.udp.large.clean.counts', 'C20.udp.large.clean.counts'],
+             functions=['LargePeerMap::clean_and_get_num_peers']),
+        dict(name='swarm::verif_kani::large_clean_v4_5', complete=False, bound='heap map <= 5 entries', timeout=2400, tier='thorough',
+             tags=['C10.udp.large.clean.keeps_unexpired', 'C10.udp.large.clean.removes_expired', 'C01.udp.large.clean.wf', 'C01.udp.large.clean.counts', 'C20.udp.large.clean.counts'],
+             functions=['LargePeerMap::clean_and_get_num_peers']),
+        dict(name='swarm::verif_kani::large_try_shrink_v4_4', complete=False, bound='heap map <= 4 entries', timeout=900,
+             tags=['C01.udp.large.try_shrink.iff_fits', 'C01.udp.large.try_shrink.self_unchanged', 'C01.udp.large.try_shrink.same_entries'],
+             functions=['LargePeerMap::try_shrink']),
+    ],
+)
+
 PROPS = {
     'C01': dict(
-        verus=['udp_swarm'], kani=[], level='proof',
+        verus=['udp_swarm'], kani=[K_UDP_SWARM], level='proof',
         technique='Verus contracts (refinement of a reference tracker by one-step contracts) on the real PeerMap / LargePeerMap functions, extracted mechanically each run',
         claim='Every public operation of the per-torrent UDP peer map is proved, for all states and inputs, to refine the reference tracker transition (counts exclude the announcer, stopped removes, latest wins, scrape counts everything); induction over histories follows from the one-step contracts.',
         note='Assumes the dependency contract for indexmap and the hand-off contracts of the inline map (SmallPeerMap) and try_shrink; shard/lock level and cleaning are not covered by the proof part.',
@@ -46,7 +128,7 @@ PROPS = {
         note='http and ws peer selection are added by later units; inline-map selection (SmallPeerMap::extract_response_peers) is a hand-off contract.',
     ),
     'C03': dict(
-        verus=['udp_handler', 'udp_swarm'], kani=[], level='proof',
+        verus=['udp_handler', 'udp_swarm'], kani=[K_COMMON_ADDR], level='proof',
         technique='Verus contracts: key construction from the datagram source in TorrentMaps::announce / PeerMap::announce (request.ip_address cannot influence the post-state)',
         claim='UDP: the address family and the IP octets handed to the per-torrent map are those of the datagram source, and the stored key is (that ip, request.port).',
         note='recv_from glue, CanonicalSocketAddr and the http/ws paths are covered by other units or not reached.',
@@ -62,6 +144,12 @@ PROPS = {
         technique='Verus contracts: AccessList::allows against its specification; permission precondition list_allows on the swarm entry points of both UDP back ends',
         claim='UDP: AccessList::allows equals the reference decision for every mode/list/hash; no announce reaches swarm state unless the list in force allows the hash, and a forbidden hash gets an error reply carrying the transaction id.',
         note='http/ws gates live in async fns (not reached); reload and cleaning are decided by other units where present.',
+    ),
+    'C13': dict(
+        verus=[], kani=[K_UDP_PROTO], level='proof',
+        technique='Kani/CBMC harnesses on the real udp_protocol parser/writers against an independent BEP 15 byte-layout oracle (symbolic datagrams)',
+        claim='Every datagram of up to 128 bytes is classified and decoded exactly as BEP 15 prescribes (connect, announce with extension bytes, all four events, rejects); writers emit exactly the BEP 15 layout and round-trip.',
+        note='list-carrying messages (scrape, replies with peers) are bounded by list length and labelled so; zerocopy/byteorder internals are executed symbolically, not trusted.',
     ),
     'C05': dict(
         verus=[], kani=[K_UDP_VALIDATOR], level='proof',
